@@ -14,6 +14,7 @@ partial def loop (h : IO.FS.Stream) (out : IO.FS.Stream) (f : String → String)
 def dispatch : String → Option (String → String)
   | "C11" => some EnumGen.runLine
   | "C12" => some Write.runLine
+  | "C17" => some Config.runLine
   | "C16" => some (fun l => if l.startsWith "(utf8" || l.startsWith "(mask2" then Utf8.runLine l else Slices.runLine l)
   | _ => none
 
